@@ -49,8 +49,8 @@ ASSUMPTIONS = [
     'and the full grid) are counted, not judged on the value',
     'Gaussian priors are driven on u in [0.01, 0.99] (u = 0 / 1 map to +-inf, no atmosphere)',
 ]
-_Q = {'sequence': 100, 'exact': 14, 'reuse': 16}
-_T = {'sequence': 700, 'exact': 70, 'reuse': 120}
+_Q = {'sequence': 100, 'exact': 14, 'reuse': 16, 'pair': 12}
+_T = {'sequence': 700, 'exact': 70, 'reuse': 120, 'pair': 100}
 BUDGET = {
     'quick': [dict(name='boundscheck', env={'NUMBA_BOUNDSCHECK': '1'}, shards=6, cases=_Q)],
     'thorough': [dict(name='boundscheck', env={'NUMBA_BOUNDSCHECK': '1'}, shards=16, cases=_T)],
@@ -65,7 +65,7 @@ REQUIRED = dict(
              'failpoint-fired:temperature', 'failpoint-fired:chemistry', 'failpoint-fired:contribution',
              'valid-after-invalid-judged', 'errors:uniform', 'errors:per-bin', 'rows:shuffled',
              'native:linear', 'native:log', 'exact-fit:code-residual-zero', 'ndim:1', 'ndim:5',
-             'reuse:set_observed', 'reuse:settings-changed', 'reuse:fit-2-judged'])
+             'reuse:set_observed', 'reuse:settings-changed', 'reuse:fit-2-judged', 'pair:turn-judged'])
 SAMPLERS = ['nestle', 'multinest', 'polychord']
 
 _fp = {'armed': None}
@@ -596,7 +596,58 @@ def wl_reuse(ctx, rng):
             round(spec['planet_mass'], 6))
 
 
-WORKLOADS = {'sequence': wl_sequence, 'exact': wl_exact, 'reuse': wl_reuse}
+def wl_pair(ctx, rng):
+    """Two optimizers alive in one process (two observations of one planet, each with its own model object, error bars,
+    bins, fitted set and priors), both fully set up BEFORE either samples; then they are driven in turn (A, B, A ...).
+    Every callback value is judged for its own optimizer: nothing may leak from one to the other."""
+    samplers = [SAMPLERS[(ctx.case['index'] + ctx.shard + k) % 3] for k in range(2)]
+    if rng.random() < 0.5:
+        samplers[1] = samplers[0]
+    spec = L.draw_world(rng)
+    L.install(spec)
+    wn = next(iter(spec['tables'].values()))['wn']
+    sides = []
+    for k in range(2):
+        model = L.build(spec)
+        cat = L.catalogue(spec, model)
+        chosen = choose_parameters(rng, cat, False, int(rng.integers(1, 4)))
+        order = [n for n in model.fittingParameters if n in chosen]
+        decls = [L.declare_prior(rng, n, cat[n], False) for n in order]
+        layout = L.draw_obs_layout(rng, wn)
+        if layout is None:
+            ctx.event('domain-skip:no-layout-with-width-condition')
+            return
+        got = _noisy_obs(ctx, rng, spec, layout)
+        if got is None:
+            ctx.event('domain-skip:truth-not-a-valid-atmosphere')
+            return
+        obs, y, sigma = got
+        kw = {}
+        if samplers[k] == 'multinest':
+            kw['search_multi_modes'] = False
+        if samplers[k] == 'polychord':
+            kw['cluster'] = True
+        opt = L.make_optimizer(samplers[k], obs, model, ctx.scratch, 'pair%d-%d' % (ctx.case['index'], k), **kw)
+        L.disable_default_fits(opt, model, obs)
+        for d in decls:
+            L.apply_prior(opt, d)
+        sides.append(dict(opt=opt, model=model, decls=decls, layout=layout, obs=obs, y=y, sigma=sigma, sampler=samplers[k]))
+        observe_setup(ctx, spec, decls, layout, samplers[k])
+    ctx.feature(workload='pair', samplers=samplers, names=[[d['name'] for d in sd['decls']] for sd in sides])
+    turns = [0, 1] + [int(t) for t in rng.integers(0, 2, int(rng.integers(1, 4)))]
+    for t in turns:
+        sd = sides[t]
+        script, metas = _short_script(rng, sd['decls'], sd['obs'])
+        call = drive(ctx, sd['opt'], sd['sampler'], sd['decls'], script)
+        if call is None:
+            return
+        judge(ctx, sd['sampler'], spec, sd['decls'], sd['layout'], sd['y'], sd['sigma'], script, metas, call, sd['obs'])
+        ctx.observe('pair:turn-judged')
+    ctx.sig('pair', tuple(samplers), tuple(turns), spec['nlayers'], sides[0]['layout']['K'], sides[1]['layout']['K'],
+            round(spec['planet_mass'], 6))
+
+
+WORKLOADS = {'sequence': wl_sequence, 'exact': wl_exact, 'reuse': wl_reuse, 'pair': wl_pair}
 
 LEVEL_TEXT = ('Exploration by runtime monitoring at the sampler boundary: the callbacks the unmodified nestle / MultiNest / '
               'PolyChord wrappers hand to the sampler entry points are captured by recording doubles and driven, in each '
